@@ -25,7 +25,13 @@ RefOps == {"ref_dangling", "ref_self", "ref_parent", "ref_wrong_kind", "ref_scal
            "ref_absent_subfield",          \* a pointer to a keyword the target schema does not have (not / items / additionalProperties)
            "ref_through_unresolved_ref",   \* a pointer that passes through a component which is itself a not-yet-resolved pure $ref
            "ref_callback_self"}            \* a callback whose operation refers to the callback again
-Ops == TypeOps \cup StructOps \cup RefOps
+(* keyword injections: parseable but hostile keyword combinations written into a SCHEMA object (the node   *)
+(* index selects among the schema objects of the document)                                                *)
+SchemaOps == {"schema_bad_pattern_example", "schema_type_empty_list", "schema_type_list", "schema_multipleof_zero_default",
+              "schema_minmax_inverted_example", "schema_enum_empty", "schema_default_wrong_type", "schema_example_wrong_type",
+              "schema_discriminator_empty", "schema_format_unknown_example", "schema_properties_null_entry", "schema_items_list",
+              "schema_additional_props_string", "schema_required_unknown_and_dup", "schema_allof_empty", "schema_oneof_null_member"}
+Ops == TypeOps \cup StructOps \cup RefOps \cup SchemaOps
 
 Entries == {"data", "datapath", "file"}
 
